@@ -24,6 +24,7 @@ import (
 	"github.com/saucelabs/forwarder/hostsfile"
 	"github.com/saucelabs/forwarder/middleware"
 	"github.com/saucelabs/forwarder/ruleset"
+	"golang.org/x/net/idna"
 
 	"verifharness/accessrig"
 	"verifharness/coqfmt"
@@ -243,10 +244,37 @@ func hostVariants(aliases []string) []hostVariant {
 		{"v6-mapped-unspec", "[::ffff:0.0.0.0]"}, {"v6-mapped-unspec-hex", "[::ffff:0:0]"}, {"v6-mapped-other", "[::ffff:10.1.2.3]"},
 		{"v6-compat-loop", "[::127.0.0.1]"}, {"v6-other", "[2001:db8::1]"}, {"v6-other2", "[::2]"}, {"v6-other3", "[1::]"},
 	}
+	// spellings the transport / dialer normalises AFTER the checks ran: IDNA compatibility mapping, zones
+	hs = append(hs,
+		hostVariant{"lh-idna", "\u24dbocalhost"}, hostVariant{"lh-idna-fullwidth", "\uff4c\uff4f\uff43\uff41\uff4c\uff48\uff4f\uff53\uff54"},
+		hostVariant{"deny-idna", "\u24d4vil.test"}, hostVariant{"plain-idna", "\u24d4xample.test"},
+		hostVariant{"v6-unspec-zone", "[::%25lo]"}, hostVariant{"v6-loop-zone", "[::1%25lo]"},
+		hostVariant{"v6-mapped-loop-zone", "[::ffff:127.0.0.1%25lo]"})
 	for i, a := range aliases {
 		hs = append(hs, hostVariant{fmt.Sprintf("alias%d", i), a}, hostVariant{fmt.Sprintf("alias%d-upper", i), strings.ToUpper(a)})
 	}
 	return hs
+}
+
+var probeCache = map[string]bool{}
+
+// probeLocal requests http://hostport/ directly (no proxy) the way an http.Transport does it.
+func probeLocal(hostport string) bool {
+	if v, ok := probeCache[hostport]; ok {
+		return v
+	}
+	tr := &http.Transport{DisableKeepAlives: true, ResponseHeaderTimeout: 2 * time.Second,
+		DialContext: (&net.Dialer{Timeout: 2 * time.Second}).DialContext}
+	defer tr.CloseIdleConnections()
+	ok := false
+	if req, err := http.NewRequest("GET", "http://"+hostport+"/probe", nil); err == nil {
+		if res, err := tr.RoundTrip(req); err == nil {
+			ok = res.Header.Get(accessrig.MarkerHeader) == "origin"
+			res.Body.Close()
+		}
+	}
+	probeCache[hostport] = ok
+	return ok
 }
 
 var ports = []string{"", ":80", ":8080", ":443"}
@@ -266,7 +294,33 @@ func coqTF(ts []TF) string {
 
 func cfgName(s Spec) string { return fmt.Sprintf("cfg%d", s.ID) }
 
-func coqConfig(s Spec, denied []string, aliases []string) string {
+// asciiForm is the transport's mapping of a host name (net/http: idna.Lookup.ToASCII on non-ASCII names).
+func asciiForm(h string) string {
+	for i := 0; i < len(h); i++ {
+		if h[i] >= 0x80 {
+			if a, err := idna.Lookup.ToASCII(h); err == nil {
+				return a
+			}
+			break
+		}
+	}
+	return h
+}
+
+func coqIDNA(table map[string]string) string {
+	var keys []string
+	for k := range table {
+		keys = append(keys, k)
+	}
+	sort.Strings(keys)
+	var parts []string
+	for _, k := range keys {
+		parts = append(parts, "("+coqfmt.Str(k)+", "+coqfmt.Str(table[k])+")")
+	}
+	return "(table_fun " + coqfmt.List("(str * str)", parts) + ")"
+}
+
+func coqConfig(s Spec, denied []string, aliases []string, idnaTable map[string]string) string {
 	basic := "None"
 	if s.Auth {
 		basic = fmt.Sprintf("(Some (%s, %s))", coqfmt.Str(authUser), coqfmt.Str(authPass))
@@ -275,8 +329,8 @@ func coqConfig(s Spec, denied []string, aliases []string) string {
 	if s.DenyRules != nil {
 		deny = fmt.Sprintf("(Some (fun h => existsb (str_eqb h) %s))", coqfmt.StrList(denied))
 	}
-	return fmt.Sprintf("Definition %s : config := {| c_name := %s; c_timeframe := %s; c_basic := %s; c_deny_localhost := %s; c_deny := %s; c_aliases := %s; c_mitm := %s |}.",
-		cfgName(s), coqfmt.Str(proxyName), coqTF(s.TimeFrame), basic, coqfmt.Bool(s.DenyLocal), deny, coqfmt.StrList(aliases), coqfmt.Bool(s.MITM))
+	return fmt.Sprintf("Definition %s : config := {| c_name := %s; c_timeframe := %s; c_basic := %s; c_deny_localhost := %s; c_deny := %s; c_aliases := %s; c_mitm := %s; c_idna := %s |}.",
+		cfgName(s), coqfmt.Str(proxyName), coqTF(s.TimeFrame), basic, coqfmt.Bool(s.DenyLocal), deny, coqfmt.StrList(aliases), coqfmt.Bool(s.MITM), coqIDNA(idnaTable))
 }
 
 type Case struct {
@@ -289,10 +343,36 @@ type Case struct {
 	// MITM sessions: Connect is the CONNECT that opened the tunnel, Session the requests sent inside the TLS
 	// session; Index -1 denotes the CONNECT itself
 	Connect *accessrig.RawReq `json:"connect,omitempty"`
+	Targets []string          `json:"targets"`         // where the exchange really went
+	Truth   bool              `json:"target_is_local"` // direct probe without the proxy reached the loopback-only origin
 	coq     string
 }
 
-func coqCase(s Spec, clock [2]int, raw accessrig.RawReq, o accessrig.Obs) (string, bool) {
+// targetsOf lists the host names the exchange was really sent towards.
+func targetsOf(o accessrig.Obs, upstreamAddr string) []string {
+	var out []string
+	for _, d := range o.Dials {
+		if d != upstreamAddr {
+			out = append(out, (&url.URL{Host: d}).Hostname())
+		}
+	}
+	for _, m := range o.Msgs {
+		if m.Peer != "upstream" {
+			continue
+		}
+		switch m.Kind {
+		case "proxy-connect":
+			out = append(out, (&url.URL{Host: m.Target}).Hostname())
+		case "proxy-plain":
+			if u, err := url.Parse(m.Target); err == nil && u.Host != "" {
+				out = append(out, u.Hostname())
+			}
+		}
+	}
+	return out
+}
+
+func coqCase(s Spec, clock [2]int, raw accessrig.RawReq, o accessrig.Obs, targets []string, truth bool) (string, bool) {
 	req, err := accessrig.ParseRaw(raw.Raw)
 	if err != nil {
 		return "", false
@@ -300,10 +380,11 @@ func coqCase(s Spec, clock [2]int, raw accessrig.RawReq, o accessrig.Obs) (strin
 	reached := len(o.Msgs)
 	return fmt.Sprintf("{| x_cfg := %s; x_env := {| now_day := %d; now_hour := %d |}; "+
 		"x_req := {| r_method := %s; r_host := %s; r_hdr := %s |}; "+
-		"x_obs := {| o_status := %d; o_hdr := %s; o_dials := %s; o_reached := %d; o_from_peer := %s |} |}",
+		"x_obs := {| o_status := %d; o_hdr := %s; o_dials := %s; o_reached := %d; o_from_peer := %s; o_targets := %s; o_target_is_local := %s |} |}",
 		cfgName(s), clock[0], clock[1],
 		coqfmt.Str(req.Method), coqfmt.Str(req.URL.Host), coqHeader(req.Header),
-		o.Status, coqHeader(o.Header), coqfmt.StrList(o.Dials), reached, coqfmt.Bool(o.FromPeer != "")), true
+		o.Status, coqHeader(o.Header), coqfmt.StrList(o.Dials), reached, coqfmt.Bool(o.FromPeer != ""),
+		coqfmt.StrList(targets), coqfmt.Bool(truth)), true
 }
 
 func writeShard(dir, name, preamble, typ, modelF, propF string, cases []string) error {
@@ -562,6 +643,14 @@ func genRequests(r *rng.R, s Spec, aliases []string, budget int, originPort stri
 				host = hv.host + ":443"
 			}
 		}
+		if s.Handler && asciiForm(hv.host) != hv.host {
+			// net/http's server rejects a non-ASCII Host header with 400 before the handler runs
+			hv = hvs[0]
+			host = hv.host + port
+			if method == "CONNECT" && port == "" {
+				host = hv.host + ":443"
+			}
+		}
 		if s.Handler && form == "origin" {
 			// the http.Handler implementation (testing only) does not complete URL.Host from the Host header:
 			// origin-form requests end in "no Host in request URL" (500, nothing dialled) — outside the model
@@ -572,15 +661,8 @@ func genRequests(r *rng.R, s Spec, aliases []string, budget int, originPort stri
 	if s.RealDial {
 		// only spellings of the local machine, with the scripted origin's real port
 		for _, hv := range hvs {
-			ip := net.ParseIP(strings.Trim(hv.host, "[]"))
-			local := ip != nil && (ip.IsLoopback() || ip.IsUnspecified())
-			lh := strings.EqualFold(hv.host, "localhost")
-			for _, a := range aliases {
-				if strings.EqualFold(hv.host, a) {
-					lh = true
-				}
-			}
-			if !local && !lh {
+			// ground truth: a plain http.Transport WITHOUT the proxy reaches the loopback-only origin
+			if !probeLocal(hv.host + ":" + originPort) {
 				continue
 			}
 			out = append(out, mk("GET", hv, ":"+originPort, credVariants()[0], "absolute", "1.1"))
@@ -785,6 +867,7 @@ func main() {
 	}
 	var cases []Case
 	denied := map[int]map[string]bool{} // spec id -> hostnames the deny matcher matches
+	idnaTable := map[string]string{}     // non-ASCII host name -> what idna.Lookup.ToASCII maps it to
 	specByID := map[int]Spec{}
 	var curKey key
 	var cur *accessrig.Proxy
@@ -835,9 +918,15 @@ func main() {
 				continue
 			}
 			hn := req.URL.Hostname()
+			if a := asciiForm(hn); a != hn {
+				idnaTable[hn] = a
+			}
 			if curMatcher != nil {
 				if curMatcher.Match(hn) {
 					denied[j.spec.ID][hn] = true
+				}
+				if a := asciiForm(hn); curMatcher.Match(a) {
+					denied[j.spec.ID][a] = true
 				}
 				// what the proxy handed to the matcher (when the request got that far) must be the same string
 				if v, ok := seen[hn]; ok {
@@ -847,7 +936,19 @@ func main() {
 					}
 				}
 			}
-			c := Case{Spec: j.spec, Clock: j.clock, Session: j.session, Index: i, Req: reqSpecs[i], Obs: o}
+			targets := targetsOf(o, rig.UpstreamAddr())
+			if curMatcher != nil {
+				for _, t := range targets {
+					if curMatcher.Match(t) {
+						denied[j.spec.ID][t] = true
+					}
+				}
+			}
+			truth := false
+			if j.spec.RealDial {
+				truth = probeLocal(req.URL.Host)
+			}
+			c := Case{Spec: j.spec, Clock: j.clock, Session: j.session, Index: i, Req: reqSpecs[i], Obs: o, Targets: targets, Truth: truth}
 			if j.connect != nil {
 				c.Connect, c.Index = j.connect, i-1
 			}
@@ -894,7 +995,7 @@ func main() {
 			dl = append(dl, h)
 		}
 		sort.Strings(dl)
-		pre.WriteString(coqConfig(specByID[id], dl, aliases))
+		pre.WriteString(coqConfig(specByID[id], dl, aliases, idnaTable))
 		pre.WriteString("\n")
 	}
 	var xc []string
@@ -907,7 +1008,7 @@ func main() {
 		} else {
 			raw = c.Session[c.Index]
 		}
-		s, ok := coqCase(c.Spec, c.Clock, raw, c.Obs)
+		s, ok := coqCase(c.Spec, c.Clock, raw, c.Obs, c.Targets, c.Truth)
 		if !ok {
 			m.Skipped++
 			continue
